@@ -13,6 +13,7 @@ Recipe (JSON):
            (for an L1 base the row is reduced with remui so it stays inside the buffer)
   stages   S lists of ops; op = ["copy", src, dst] | ["gen", [ins], [outs], rw] | ["dart", [ins], [outs]]
            operand = ["b", k] whole L1 alloc | ["a", k] whole argument | ["v", k] view k
+                     | ["x", k] pool value k as scalar index input (linalg.generic, not first input)
   post     ops after the loop (operands "a"/"b" only)
   tail     (near-shape sub only) deviation from the recognised shape, see build()
 The loop body is: idx ops, views, then the stages, each followed by snax.cluster_sync_op.
@@ -138,6 +139,11 @@ def build(rc) -> Built:
             if not in_loop or not (0 <= k < len(vinfo)):
                 raise BadRecipe("unknown view")
             return vinfo[k]
+        if kind == "x":
+            # an index value computed in the loop body, passed as a scalar input of a linalg.generic
+            if not in_loop:
+                raise BadRecipe("index value outside the loop")
+            return pool[k % len(pool)], "index", None
         raise BadRecipe("operand kind")
 
     stage_tags = {}
@@ -154,15 +160,19 @@ def build(rc) -> Built:
         outs = [operand(o, in_loop) for o in op[2]]
         if not ins or not outs:
             raise BadRecipe("compute op needs inputs and outputs")
-        if len({r for (_, _, r) in ins + outs}) != 1:
-            raise BadRecipe("compute op on different tile sizes")
+        if len({r for (_, _, r) in ins + outs if r is not None}) != 1 or any(r is None for (_, _, r) in outs) \
+                or ins[0][2] is None or (op[0] != "gen" and any(r is None for (_, _, r) in ins)):
+            raise BadRecipe("compute op on different tile sizes / scalar operand in a wrong place")
         names = ", ".join(n for (n, _, _) in ins + outs)
         tys = ", ".join(t for (_, t, _) in ins + outs)
         if op[0] == "gen":
             rw = bool(op[3]) if len(op) > 3 else False
             n = len(ins) + len(outs)
-            maps = ", ".join(["affine_map<(d0, d1) -> (d0, d1)>"] * n)
-            bargs = ", ".join(f"%{tag}x{j}: i32" for j in range(n))
+            maps = ", ".join("affine_map<(d0, d1) -> ()>" if r_ is None else "affine_map<(d0, d1) -> (d0, d1)>"
+                             for (_, _, r_) in ins + outs)
+            bargs = ", ".join(f"%{tag}x{j}: " + ("index" if r_ is None else "i32") for j, (_, _, r_) in enumerate(ins + outs))
+            if any(r_ is None for (_, _, r_) in ins):
+                feats.add("op:gen-scalar-index-input")
             reg = [f"    ^bb0({bargs}):"]
             ys = []
             for j in range(len(outs)):
@@ -228,7 +238,7 @@ def build(rc) -> Built:
 
 # ------------------------------------------------------------------------------------ strategies
 
-LBSTEP = [(0, 1)] * 8 + [(0, 2), (0, 3), (1, 1), (2, 1), (3, 2), (1, 3)]
+LBSTEP = [(0, 1)] * 10 + [(0, 2), (0, 3), (0, 2), (1, 1), (2, 1), (3, 2)]
 
 
 @st.composite
@@ -256,10 +266,16 @@ def _op_pool(l1, args, views, r):
 
 @st.composite
 def loop_recipe(draw, tier="quick"):
-    S = draw(st.sampled_from([2, 3, 3, 4]))
+    def rare(k):
+        # true with probability 1/(k+1); the *simplest* draw (0) is the common case, so Hypothesis' bias towards
+        # small values produces the accepted shape rather than the exotic one
+        return draw(st.integers(0, k)) == k
+
+    S = draw(st.sampled_from([3, 2, 4, 3]))
     lb, ub, step = draw(bounds(S, 6 if tier == "quick" else 8))
     r = draw(st.sampled_from([1, 1, 1, 2]))
-    p_chain = draw(st.sampled_from([1.0, 1.0, 0.95, 0.9, 0.6]))
+    # how strictly operands follow the producer(stage s) -> consumer(stage s+1) chain, in percent
+    p_chain = draw(st.sampled_from([100, 100, 97, 90, 60]))
     nG = 3
     # index arithmetic: a few expressions of %i
     n_idx = draw(st.integers(0, 3))
@@ -270,12 +286,11 @@ def loop_recipe(draw, tier="quick"):
         y = draw(st.integers(1, 4)) if op != "subi" else draw(st.sampled_from([1, 1, 2]))
         idx.append([op, x, y])
     npool = 1 + NCONST + n_idx
-    # L1: chain buffers b0..b(S-2) of r rows, optional extra whole buffer and a tiled buffer
+    # L1: chain buffers b0..b(S-2) of r rows, optional extra whole buffers and a tiled buffer
     l1 = [r] * (S - 1)
-    if draw(st.booleans()):
-        l1.append(r)
+    l1 += [r] * draw(st.integers(0, 2))
     tiled = None
-    if draw(st.integers(0, 3)) == 0:
+    if rare(3):
         tiled = len(l1)
         l1.append(draw(st.sampled_from([2 * r, 4])))
     args = [r] * draw(st.integers(0, 2))
@@ -284,31 +299,50 @@ def loop_recipe(draw, tier="quick"):
         # reference to %i-dependent values first; constants sometimes
         return draw(st.sampled_from([0, 0, 0] + list(range(1 + NCONST, npool)) * 2 + [1, 2, 3]))
 
+    # view 0 / 1: the default source / sink tiles G0[f(i)], G1[g(i)]; further tiles of any global or of the tiled L1 buffer
     views = []
-    nv = draw(st.integers(2, 5))
+    nv = draw(st.integers(2, 6))
     for n in range(nv):
-        if tiled is not None and draw(st.integers(0, 3)) == 0:
+        if n >= 2 and tiled is not None and rare(2):
             views.append(["B", tiled, iref(), r])
+        elif n < 2:
+            views.append(["G", n, draw(st.sampled_from([0, 0, 0, 0] + list(range(1 + NCONST, npool)))), r])
         else:
-            g = n % nG if n < 3 else draw(st.integers(0, nG - 1))
-            views.append(["G", g, iref() if n >= 2 else draw(st.sampled_from([0, 0, 0, 0] + list(range(1 + NCONST, npool)))), r])
+            # mostly the third global (independent of source and sink), sometimes aliasing them
+            views.append(["G", draw(st.sampled_from([2, 2, 2, 0, 1])), iref(), r])
     pool = _op_pool(l1, args, views, r)
     # operands that are not part of the stage-to-stage chain (extra L1 buffers, arguments, tiles)
     side = [o for o in pool if not (o[0] == "b" and o[1] < S - 1)]
+    side_ro = [o for o in side if not (o[0] == "v" and o[1] < 2)] or side
 
-    def pick(default):
-        if default is not None and draw(st.integers(0, 99)) < int(p_chain * 100):
+    used: list = []  # operands already used in the current stage (a second use in one stage is mostly refused by the passes)
+    used_all: list = [["v", 0], ["v", 1]]
+
+    def pick(default, among=None):
+        o = _pick(default, among)
+        used.append(o)
+        used_all.append(o)
+        return o
+
+    def _pick(default, among):
+        if default is not None and draw(st.integers(0, 99)) < p_chain:
             return default
-        if draw(st.integers(0, 4)) > 0:
+        if among is not None and not rare(4):
+            fresh = [o for o in among if o not in used_all] or [o for o in among if o not in used]
+            if fresh and not rare(5):
+                return draw(st.sampled_from(fresh))
+            return draw(st.sampled_from(among))
+        if not rare(4):
             return draw(st.sampled_from(side))
         return draw(st.sampled_from(pool))
 
     stages = []
     for s in range(S):
-        kinds = ["copy", "gen", "gen"] + (["dart"] if s > 0 else [])
+        kinds = ["gen", "copy", "gen"] + (["dart"] if s > 0 else [])
         if s == 0 or s == S - 1:
-            kinds += ["copy", "copy"]
+            kinds = ["copy", "copy"] + kinds
         kind = draw(st.sampled_from(kinds))
+        used.clear()
         src_default = ["v", 0] if s == 0 else ["b", s - 1]
         dst_default = ["v", 1] if s == S - 1 else ["b", s]
         ops = []
@@ -316,34 +350,35 @@ def loop_recipe(draw, tier="quick"):
             ops.append(["copy", pick(src_default), pick(dst_default)])
         else:
             ins = [pick(src_default)]
-            if draw(st.integers(0, 3)) == 0:
-                ins.append(pick(None))
+            if rare(3):
+                ins.append(pick(None, side_ro))  # a second, read-only input (weights)
+            if kind == "gen" and rare(14):
+                ins.append(["x", draw(st.sampled_from([0] + list(range(1 + NCONST, npool))))])  # index-dependent scalar
             outs = [pick(dst_default)]
-            if draw(st.integers(0, 5)) == 0:
-                outs.append(pick(None))
+            if rare(6):
+                outs.append(pick(None, side_ro))
             if kind == "gen":
-                ops.append(["gen", ins, outs, draw(st.integers(0, 11)) == 0])
+                ops.append(["gen", ins, outs, rare(11)])
             else:
                 ops.append(["dart", ins, outs])
-        if draw(st.integers(0, 3)) == 0:
+        if rare(3):
             # a second op in the stage, on its own operands most of the time
-            k2 = draw(st.sampled_from(["copy", "gen"]))
-            if k2 == "copy":
-                ops.append(["copy", pick(None), pick(None)])
+            if draw(st.booleans()):
+                ops.append(["copy", pick(None, side_ro), pick(None, side_ro)])
             else:
-                ops.append(["gen", [pick(None)], [pick(None)], False])
+                ops.append(["gen", [pick(None, side_ro)], [pick(None, side_ro)], False])
             if draw(st.booleans()):
                 ops.reverse()
             if ops[0][0] == "dart" and s == 0:
                 ops.reverse()
         stages.append(ops)
     post = []
-    if draw(st.integers(0, 7)) == 0:
+    if rare(9):
         srcs = [o for o in pool if o[0] == "b"]
         dsts = [o for o in pool if o[0] == "a"]
         if srcs and dsts:
             post.append(["copy", draw(st.sampled_from(srcs)), draw(st.sampled_from(dsts))])
-    ub_dyn = draw(st.integers(0, 5)) == 0
+    ub_dyn = rare(5)
     canon = True if (lb, step) != (0, 1) else draw(st.booleans())
     return dict(S=S, lb=lb, ub=ub, step=step, ub_dyn=ub_dyn, canon=canon, nG=nG, args=args, l1=l1, idx=idx, views=views,
                 stages=stages, post=post)
